@@ -876,7 +876,34 @@ def unit_bounded_explicit(U):
     U.bounded_result("C05.bounded.explicit_generated_key", "create_unique/merge keep all features even when an explicit id equals a generated key", "lines k, k_1, k x 2 strategies", 2, fails, exhaustive=True)
 
 
-UNITS = [("bounded.explicit", unit_bounded_explicit), ("do_merge", unit_do_merge), ("candidates", unit_candidates), ("merge_candidate", unit_merge_candidate), ("get_feature", unit_get_feature), ("collision_merge", unit_collision_merge), ("merge_no_candidate", unit_merge_no_candidate), ("collision", unit_collision), ("collision_each", unit_collision_each), ("init", unit_init), ("bounded.merge", unit_bounded_merge), ("bounded.force_fields", unit_bounded_force_fields)]
+def unit_bounded_after_duplicate(U):
+    """Bounded: a duplicate that is resolved (ignored, replaced, filed under a fresh key, merged) does not change what happens
+    to the lines AFTER it in the same import: their Parent links are recorded as for any other line"""
+    from contracts import importer as IM_
+    fails, cases = [], 0
+    mk = lambda i, t, par=None, **a: F.Feature(seqid="c", source="s", featuretype=t, start=1, end=9, strand="+", attributes=dict(dict({"ID": [i]}, **({"Parent": par} if par else {})), **{k: [v] for k, v in a.items()}))
+    head = [mk("g", "gene"), mk("m", "mRNA", ["g"]), mk("k", "exon", ["m"], Note="first")]
+    dup = mk("k", "exon", ["m"], Note="second")
+    tail = [mk("x", "exon", ["m"]), mk("m2", "mRNA", ["g"]), mk("y", "exon", ["m2", "m"])]
+    for strat in ("warning", "replace", "create_unique", "merge"):
+        for via in ("create_db", "update"):
+            cases += 1
+            try:
+                if via == "create_db":
+                    db = gffutils.create_db([IM_._copyf(f) for f in head + [dup] + tail], ":memory:", merge_strategy=strat)
+                else:
+                    db = gffutils.create_db([IM_._copyf(f) for f in head], ":memory:")
+                    db.update([IM_._copyf(f) for f in [dup] + tail], merge_strategy=strat, make_backup=False)
+                rel = {(r["parent"], r["child"], r["level"]) for r in db.execute("SELECT parent, child, level FROM relations")}
+                exp_tail = {r for r in IM_.expected_gff3_relations(head + tail) if r[1] in ("x", "m2", "y")}
+                missing = sorted(exp_tail - rel)
+                if missing:
+                    fails.append({"case": {"merge_strategy": strat, "via": via, "lines": [str(f) for f in head + [dup] + tail]}, "expected": "relations of the lines after the duplicate: %r" % sorted(exp_tail), "observed": "missing %r" % missing})
+            except Exception as e:
+                fails.append({"case": {"merge_strategy": strat, "via": via}, "expected": "no exception", "observed": repr(e)})
+    U.bounded_result("C05.bounded.after_duplicate", "the Parent links of the lines that follow a resolved duplicate are recorded", "4 strategies x create_db / update", cases, fails)
+
+UNITS = [("bounded.after_duplicate", unit_bounded_after_duplicate), ("bounded.explicit", unit_bounded_explicit), ("do_merge", unit_do_merge), ("candidates", unit_candidates), ("merge_candidate", unit_merge_candidate), ("get_feature", unit_get_feature), ("collision_merge", unit_collision_merge), ("merge_no_candidate", unit_merge_no_candidate), ("collision", unit_collision), ("collision_each", unit_collision_each), ("init", unit_init), ("bounded.merge", unit_bounded_merge), ("bounded.force_fields", unit_bounded_force_fields)]
 
 
 def replay_known(entry):
